@@ -132,6 +132,9 @@ func isConvQuote(detail string, cans []string) bool {
 	site := false
 	for _, re := range convSites {
 		if loc := re.FindStringIndex(detail); loc != nil {
+			if findCanary(detail[:loc[1]], cans) != "" {
+				return false // the canary sits in HCL's own part of the message, not in go-cty's
+			}
 			site = true
 			detail = detail[loc[1]:] // the embedded conversion error
 			break
